@@ -81,9 +81,11 @@ Shape shapeOf(const ezc3d::c3d &c) {
     s.plabels = P.parameter("LABELS").valuesAsString();
     s.prate = firstFloat(P.parameter("RATE"));
     if (A.nbParameters()) {
-        int nc = firstInt(A.parameter("USED")); s.nC = nc < 0 ? 0 : static_cast<size_t>(nc);
-        s.alabels = A.parameter("LABELS").valuesAsString();
-        s.arate = firstFloat(A.parameter("RATE"));
+        try {
+            int nc = firstInt(A.parameter("USED")); s.nC = nc < 0 ? 0 : static_cast<size_t>(nc);
+            s.alabels = A.parameter("LABELS").valuesAsString();
+            s.arate = firstFloat(A.parameter("RATE"));
+        } catch (const std::invalid_argument &) { s.nC = 0; s.alabels.clear(); s.arate = 0; }   // vendor-style ANALOG group without the standard parameters
     }
     s.nSub = c.header().nbAnalogByFrame();
     s.nFrames = c.data().nbFrames();
@@ -159,7 +161,7 @@ static void fillPoint(ezc3d::DataNS::Points3dNS::Point &pt, Rng &r) {
 static ezc3d::DataNS::Frame buildFrame(const Shape &s, long long dev, uint64_t vseed, std::string &note) {
     Rng r(vseed);
     std::vector<std::string> names;
-    for (size_t i = 0; i < s.nP; ++i) names.push_back(i < s.plabels.size() ? s.plabels[i] : "pt" + std::to_string(i));
+    for (size_t i = 0; i < s.nP; ++i) names.push_back(i < s.plabels.size() ? s.plabels[i] : "unlabeled_point_" + std::to_string(i));
     size_t nC = s.nC, nSub = s.nC ? s.nSub : 0;
     note = "match";
     switch (dev) {
@@ -183,7 +185,7 @@ static ezc3d::DataNS::Frame buildFrame(const Shape &s, long long dev, uint64_t v
         ezc3d::DataNS::AnalogsNS::SubFrame sf;
         for (size_t c = 0; c < nC; ++c) {
             ezc3d::DataNS::AnalogsNS::Channel ch;
-            if (dev != 12) ch.name(c < s.alabels.size() ? s.alabels[c] : "ch" + std::to_string(c));
+            if (dev != 12) ch.name(c < s.alabels.size() ? s.alabels[c] : "unlabeled_analog_" + std::to_string(c));
             ch.data(bitsToFloat(genFloatBits(r)));
             sf.channel(ch);
         }
@@ -210,7 +212,7 @@ void Interp::run(const Case &c) {
     for (size_t i = 0; i < c.ops.size(); ++i) {
         const Op &op = c.ops[i];
         if (op.code.size() && op.code[0] == 'f' && op.code != "fbuild" && op.code != "fmut" && op.code != "fsub" && op.code != "fsubx") continue;   // file-model ops
-        if (op.code == "poke" || op.code == "field" || op.code == "trunc" || op.code == "truncmeta" || op.code == "bytes" || op.code == "cfg") continue;
+        if (op.code == "poke" || op.code == "field" || op.code == "trunc" || op.code == "truncmeta" || op.code == "bytes" || op.code == "cfg" || op.code == "vendor") continue;
         if (L) L->before(*this, op, i);
         Outcome out = exec(op);
         ++opsRun;
@@ -292,6 +294,15 @@ Outcome Interp::exec(const Op &op) {
             if (setOut.threw) { out = setOut; out.note = "set-refused"; out.mutating = false; return out; }
             out.mutating = true;
             obj->parameter(s.group, p);
+        }
+        else if (k == "padp") {
+            // padding parameter: int array of n elements with a description of d characters (sweeps the section length)
+            long long n = op.arg(0) < 0 ? -op.arg(0) : op.arg(0), d = op.arg(1) < 0 ? -op.arg(1) : op.arg(1);
+            ezc3d::ParametersNS::GroupNS::Parameter p("PADDING", std::string(static_cast<size_t>(d % 256), 'x'));
+            std::vector<int> v(static_cast<size_t>(n % 256), 7);
+            p.set(v);
+            out.mutating = true;
+            obj->parameter("PADGRP", p);
         }
         else if (k == "lockg") { out.mutating = true; obj->lockGroup(groupNameOf(op.arg(0))); }
         else if (k == "unlockg") { out.mutating = true; obj->unlockGroup(groupNameOf(op.arg(0))); }
